@@ -71,8 +71,10 @@ METHODS = [
     MethodSpec(name="u_enum", kind="unary", params=[("a0", "color"), ("a1", "dc"), ("a2", "listint")], ret="int"),
     MethodSpec(name="u_bytes", kind="unary", params=[("a0", "bytes"), ("a1", "bool")], ret="int"),
     MethodSpec(name="p_hdr", kind="producer", header=True, state_cls="PStateA", params=[("a0", "int"), ("a1", "str")]),
+    # every parameter has a default: the client fills them in, so even this method's request carries all its columns
+    MethodSpec(name="u_dflt", kind="unary", params=[("a0", "int"), ("a1", "str")], defaults={"tag": "4242", "a0": "7", "a1": "'dflt'"}, ret="int"),
 ]
-PERTURB = ["none", "none", "rename", "reorder", "add", "drop", "retype", "nullflip", "null", "enum", "rows0", "rows2", "method_raises"]
+PERTURB = ["none", "none", "rename", "reorder", "add", "drop", "retype", "nullflip", "null", "enum", "rows0", "rows2", "method_raises", "dropall"]
 
 
 def valid_columns(svc: Any, spec: MethodSpec, tag: int) -> tuple[list[pa.Field], list[Any]]:
@@ -174,6 +176,8 @@ def perturb(ch: Any, kind: str, fields: list[pa.Field], vals: list[Any], label: 
             return fields, cols, "noop"
         cols[ej[0]] = ["PURPLE"]
         detail = fields[ej[0]].name
+    elif kind == "dropall":
+        fields, cols, detail = [], [], "all-columns"
     elif kind == "rows0":
         cols = [[] for _ in cols]
         detail = "0rows"
@@ -247,6 +251,7 @@ def run(ctx: RunCtx) -> None:
         elif spec.kind != "unary":
             beh.term = ("stream",)
         world.beh[tag] = beh
+        world.beh[4242] = beh  # the tag a method with an all-default signature runs with if a column-less request gets through
         decl, vals = valid_columns(svc, spec, tag)
         fields, cols, detail = perturb(ch, kind if kind != "method_raises" else "none", list(decl), list(vals), "p")
         if detail == "noop":
